@@ -226,6 +226,7 @@ type qWorld struct {
 	stolenAtExit int64
 	readyAtExit  map[string]bool
 	lastRestartAt time.Time
+	mainStart time.Time // when the current daemon's Main (and its scan ticker) started
 	burstOps []Op
 	burstAdmin map[string]int // status of the administrative calls of the current burst
 	lastStats *statsDoc
@@ -292,6 +293,7 @@ func (w *qWorld) startNSQD() error {
 	w.n = n
 	w.mainDone = make(chan error, 1)
 	go func() { w.mainDone <- n.Main() }()
+	w.mainStart = time.Now()
 	w.tcpAddr = "127.0.0.1:4150"
 	w.httpAddr = "127.0.0.1:4151"
 	w.lifetime++
@@ -905,6 +907,20 @@ func (w *qWorld) opAnswer(op Op) {
 	}
 	d = held[int(uint64(op.B)%uint64(len(held)))]
 	id := d.mc.pub.ID
+	if op.S == "atdeadline" {
+		// answer at the very instant nsqd's scan finds the message timed out:
+		// the first scan tick at or after the deadline
+		if dl, ok := w.deadlineLower(d); ok && !w.mainStart.IsZero() {
+			si := ms(w.cfg.ScanIntervalMs)
+			k := (dl.Sub(w.mainStart) + si - 1) / si
+			tick := w.mainStart.Add(k * si)
+			if wait := time.Until(tick); wait > 0 && wait < 2*time.Minute {
+				time.Sleep(wait)
+				w.inBurst = true
+				w.rc.Probe("answer_at_timeout_scan")
+			}
+		}
+	}
 	w.rc.Logf("%s %s m%06d (att %d)", co.cl.Name, op.Kind, d.mc.pub.N, d.Att)
 	d.mc.noteCmd(co)
 	switch op.Kind {
